@@ -130,13 +130,18 @@ CrashLeavesPrefix == crashed => IsPrefix(sink, Canonical)
 
 \* the same predicate on a recorded run: calls = sequence of [offered (first bytes of the buffer),
 \* offered_len, resp], resp = k >= 0 bytes taken, -1 interrupted, -2 failed; canonical and sink are
-\* byte sequences
+\* byte sequences.  Only bytes the sink ACCEPTED are constrained (they must be the next canonical
+\* bytes, at every call): what a buffer holds beyond the accepted count is never delivered, and how
+\* the writer cuts the file into calls is its own business.
+Min2(a, b) == IF a < b THEN a ELSE b
 RECURSIVE CallsOk(_, _, _, _)
 CallsOk(canonical, calls, k, pos) ==
   IF k > Len(calls) THEN TRUE
-  ELSE LET c == calls[k] IN
-       /\ pos + c.offered_len <= Len(canonical)
-       /\ c.offered = SubSeq(canonical, pos + 1, pos + Len(c.offered))
+  ELSE LET c == calls[k]
+           seen == IF c.resp > 0 THEN Min2(c.resp, Len(c.offered)) ELSE 0
+       IN
+       /\ c.resp > 0 => (c.resp <= c.offered_len /\ pos + c.resp <= Len(canonical))
+       /\ SubSeq(c.offered, 1, seen) = SubSeq(canonical, pos + 1, pos + seen)
        /\ CallsOk(canonical, calls, k + 1, IF c.resp > 0 THEN pos + c.resp ELSE pos)
 
 RecordedProtocol(canonical, sinkBytes, ok, anyFail, calls) ==
